@@ -412,6 +412,7 @@ pub fn run(ctx: &Ctx) -> (Acc, String, bool) {
         "\"abc\" ~# :x",
         ":abc ~# \"\"",
         "(\"abc\" ~# :x) ~# \"\"",
+        "\":abc\" ~# :x",
         // no significant token at all: its entry must still be its own
         "",
         "  @@ nothing here",
